@@ -50,16 +50,16 @@ func init() {
 }
 
 type cand struct {
-	p            int  // position of '@'
-	ls, re       int  // L = [ls,p)  R = [p+1,re)
-	shape        bool // L, R non-empty and R dotted or reaching the end of the text
-	negSlash     bool // documented negative: directly preceded by '/'
-	negNumeric   bool // documented negative: purely numeric dotted domain
-	numTrailDot  bool // negNumeric and R ends in '.'
-	core         bool
-	cs, ce       int  // bytes that must disappear
-	digitEdged   bool // R begins and ends with a digit (class of the known numeric-test defect)
-	tolerated    bool // broad but not core
+	p           int  // position of '@'
+	ls, re      int  // L = [ls,p)  R = [p+1,re)
+	shape       bool // L, R non-empty and R dotted or reaching the end of the text
+	negSlash    bool // documented negative: directly preceded by '/'
+	negNumeric  bool // documented negative: purely numeric dotted domain
+	numTrailDot bool // negNumeric and R ends in '.'
+	core        bool
+	cs, ce      int  // bytes that must disappear
+	digitEdged  bool // R begins and ends with a digit (class of the known numeric-test defect)
+	tolerated   bool // broad but not core
 }
 
 func (c *cand) broad(allowSlash bool, allowNumeric int) bool {
